@@ -379,19 +379,27 @@ def generate_macro_application(
     macro_code = macro_def.block
     macro_args = macro_def.args
     macro_args_values = node.args
+    # Arguments are evaluated where the macro is applied, before any parameter is bound,
+    # so that an argument can never be captured by a parameter of the same name.
+    bound: list[tuple[str, Any, bool]] = []
+    for index, arg in enumerate(macro_args):
+        value = macro_args_values[index]
+        if isinstance(value, BlockAstNode):
+            bound.append((arg, value, False))
+        else:
+            try:
+                bound.append((arg, eval_expression(value, resolver), False))
+            except SymbolNotDefined:
+                # defer the resolve to the emit part.
+                bound.append((arg, value, True))
     resolver.append_scope()
     resolver.use_next_scope()
     code.append(ScopeNode(resolver))
-    for index, arg in enumerate(macro_args):
-        value = macro_args_values[index]
-        try:
-            if isinstance(value, BlockAstNode):
-                resolver.current_scope.add_symbol(arg, value)
-            else:
-                resolver.current_scope.add_symbol(arg, eval_expression(value, resolver))
-        except SymbolNotDefined:
-            # defer the resolve to the emit part.
-            code.append(SymbolNode(arg, value, resolver))
+    for arg, value, deferred in bound:
+        if deferred:
+            code.append(SymbolNode(arg, value, resolver, in_parent_scope=True))
+        else:
+            resolver.current_scope.add_symbol(arg, value)
     code += _code_gen(macro_code.body, resolver, macro_definitions)
     code.append(PopScopeNode(resolver))
     resolver.restore_scope()
